@@ -161,6 +161,9 @@ def judge_family(ctx, t, src, tgt, opts, where):
         if not (e <= 1e-7 * scale):
             ctx.fail("pwa_does_not_send_source_landmarks_onto_target_landmarks", cls=cls, mech=where, err=e)
         tl = np.asarray(t.source.trilist)
+        given = opts.get("_source_arg", None) if isinstance(opts, dict) else None
+        if given is not None and getattr(given, "trilist", None) is not None and len(given.points) == len(src):
+            tl = np.asarray(given.trilist)          # the triangles of the source as the caller handed it over (a mesh keeps its own)
         rng = np.random.default_rng(9)
         # affine inside each triangle: the image of a barycentric combination is the combination of the vertex images
         k = min(len(tl), 12)
